@@ -13,6 +13,8 @@ CLAIMED = {
          "bound is measured from the first read attempt of the connection (resp. of any connection for the total limiter); 0.05 byte slack for float rounding in x/time/rate"),
  "C13": ("§6 C13", "Seeded simulation of the real ListenerWrapper (accept loop, handler goroutines, connChan hand-off, shutdown draining) with mixes of terminal / fall-through / failing / TLS-terminated connections, slow consumers, connChan capacities 1..16, temporary accept errors and Close at arbitrary instants; oracle: exactly-once census, byte-exact replay through the poisoning pool, TLS connection state, closure of consumed/rejected connections, Accept reporting closure, no goroutine left, bounded liveness after Close.",
          "connection classes are decided by the first stream byte through spec matchers plus the real tls matcher/handler; GOMAXPROCS is set per run to choose the connChan capacity"),
+ "C09": ("§6 C09", "Seeded simulation of the real UDP server loop and packetConn (reader goroutine, udpConns table, readCh/closeCh/closed protocol, idle and deadline timers) with several client addresses, bursts beyond the channel capacities, drop/dup/reorder/delay before arrival, handlers that finish after k datagrams, idle expiry, temporary read errors and socket Close; inserted yield points and a tape-driven select make the close/arrival windows explorable and replayable. Oracle over arrival order at the socket; process survival is part of the verdict.",
+         "no order is demanded between two simultaneously alive associations of one client (a stale close notification can start a second one); datagrams queued in an association that ends are excusably lost; goroutine exit at shutdown is not part of the statement and not checked"),
 }
 NA = {
  "C07": "pure function of the ClientHello bytes (differential input testing against crypto/tls): no schedule, clock, fault or interleaving for a simulator to decide; its one schedule-dependent clause is exercised under C06",
@@ -20,7 +22,7 @@ NA = {
  "C15": "Caddyfile->JSON adaptation and JSON round trip are pure single-threaded functions of the configuration text",
  "C18": "FromBytes/ToBytes inverse laws are pure functions of byte strings",
 }
-PENDING = ["C03","C04","C06","C08","C09","C10","C11","C12","C16"]
+PENDING = ["C03","C04","C06","C08","C10","C11","C12","C16"]
 m = {
  "version": 1,
  "setup_cmd": "./check build",
